@@ -410,6 +410,30 @@ func (r *Reader) Read(position int64) (msg Message, nextPosition int64, err erro
 	return
 }
 
+// maxUncheckedBodySize is the declared body size up to which a record is read without
+// first comparing it to the file size
+const maxUncheckedBodySize = 64 * 1024
+
+// checkBodySize guards against corrupt size fields causing huge allocations: a body that
+// claims to be large must fit in what is left of the file
+func (r *Reader) checkBodySize(position int64, size int) (bool, error) {
+	if size <= maxUncheckedBodySize {
+		return true, nil
+	}
+
+	var fileSize int64
+	if r.ra != nil {
+		fileSize = int64(r.ra.Len())
+	} else {
+		stat, err := r.r.Stat()
+		if err != nil {
+			return false, fmt.Errorf("read log stat: %w", err)
+		}
+		fileSize = stat.Size()
+	}
+	return position+int64(size) <= fileSize, nil
+}
+
 func (r *Reader) readV1(position int64, msg *Message) (nextPosition int64, err error) {
 	// Read header
 	var headerBytes [v1HeaderSize]byte
@@ -446,6 +470,12 @@ func (r *Reader) readV1(position int64, msg *Message) (nextPosition int64, err e
 		return -1, errInvalidHeader
 	}
 	position += v1HeaderSize
+	switch ok, err := r.checkBodySize(position, int(keySize)+int(valueSize)); {
+	case err != nil:
+		return -1, err
+	case !ok:
+		return -1, errShortMessage
+	}
 
 	// Allocate and read key/value
 	messageBytes := make([]byte, keySize+valueSize)
@@ -524,6 +554,12 @@ func (r *Reader) readV2(position int64, msg *Message) (nextPosition int64, err e
 	// Combining them avoids passing a stack-allocated slice to crc32, which would
 	// cause headerBytes to escape to the heap and add an extra allocation per read.
 	payloadSize := headerPayloadSize + int(keySize) + int(valueSize) + trailerSize
+	switch ok, err := r.checkBodySize(position, payloadSize-headerPayloadSize); {
+	case err != nil:
+		return -1, err
+	case !ok:
+		return -1, errShortData
+	}
 	payload := make([]byte, payloadSize)
 	copy(payload[:headerPayloadSize], headerBytes[4:])
 	if r.ra != nil {
